@@ -77,6 +77,7 @@ func cmdWorker(args []string) int {
 		return 2
 	}
 	c := core.NewCtx(*prop, *tier, *seed, *batch, *nb, *prog)
+	go workerWatchdog(c, *tier)
 	if *onlyMon != "" {
 		c.Replay = true
 		c.OnlyMonitor = *onlyMon
@@ -101,6 +102,37 @@ func cmdWorker(args []string) int {
 		return 2
 	}
 	return 0
+}
+
+// workerWatchdog keeps a runaway case from taking the machine down: it ends the
+// process (exit 97) when the heap explodes and (exit 98) when one case has been
+// current for far longer than any legitimate case. The parent then re-runs that
+// single case in a fresh process to tell a real hang/blow-up from a slow box.
+func workerWatchdog(c *core.Ctx, tier string) {
+	limit := uint64(3 << 30)
+	stuckAfter := 90 * time.Second
+	if tier == "thorough" {
+		stuckAfter = 10 * time.Minute
+	}
+	last := c.CaseSeq()
+	lastChange := time.Now()
+	var ms runtime.MemStats
+	for {
+		time.Sleep(100 * time.Millisecond)
+		runtime.ReadMemStats(&ms)
+		if ms.HeapAlloc > limit {
+			c.FlushProgress()
+			fmt.Fprintf(os.Stderr, "lwmon: heap grew beyond %d MiB inside one case; aborting this worker\n", limit>>20)
+			os.Exit(97)
+		}
+		if s := c.CaseSeq(); s != last {
+			last, lastChange = s, time.Now()
+		} else if s != 0 && time.Since(lastChange) > stuckAfter {
+			c.FlushProgress()
+			fmt.Fprintf(os.Stderr, "lwmon: one case has been running for %s; aborting this worker\n", stuckAfter)
+			os.Exit(98)
+		}
+	}
 }
 
 // ---------------------------------------------------------------- replay
@@ -335,10 +367,18 @@ func cmdRun(args []string) int {
 		}
 		return outcomes[i].idx < outcomes[j].idx
 	})
+	confirmed := map[string][3]string{}
 	for _, o := range outcomes {
 		if o.res == nil {
-			// dead child: attribute and confirm
-			key, detail, inc := confirmDeath(self, *racebin, work, *prop, *tier, seed, o)
+			// dead child: attribute and confirm (once per sub-monitor: several workers usually die of the same cause)
+			ck := fmt.Sprintf("%v|%s|%v", o.race, o.progMon, o.timedOut)
+			var key, detail, inc string
+			if prev, ok := confirmed[ck]; ok {
+				key, detail, inc = prev[0], prev[1], prev[2]
+			} else {
+				key, detail, inc = confirmDeath(self, *racebin, work, *prop, *tier, seed, o)
+				confirmed[ck] = [3]string{key, detail, inc}
+			}
 			if inc != "" {
 				inconclusive = append(inconclusive, inc)
 			} else {
@@ -563,6 +603,10 @@ func confirmDeath(self, racebin, work, prop, tier string, seed uint64, o *childO
 	what := "died"
 	if o.timedOut {
 		what = "exceeded the watchdog"
+	}
+	if ee, ok := o.err.(*exec.ExitError); ok && ee.ExitCode() == 98 {
+		o.timedOut = true
+		what = "had one case running for too long"
 	}
 	if o.progMon == "" {
 		if o.timedOut {
